@@ -10,6 +10,7 @@ Three configurations, reported separately:
                  multi-byte damage; whatever still loads must be a fixed point of load-save-load
 """
 import collections
+import sys
 
 from simkit import bootstrap
 from simkit import simtime
@@ -22,6 +23,7 @@ mido = bootstrap()
 import mido.midifiles.midifiles as mfmod  # noqa: E402
 from mido import MidiFile, MidiTrack, MetaMessage, Message  # noqa: E402
 from mido.midifiles.meta import UnknownMetaMessage  # noqa: E402
+from mido.frozen import freeze_message, thaw_message  # noqa: E402
 
 VLQ_EDGES = (0, 0, 0, 1, 127, 128, 16383, 16384, 2097151, 2097152, 268435455)
 SMALL_DELTAS = (0, 0, 0, 1, 10, 127, 128, 480)
@@ -31,6 +33,9 @@ KEYS = ('C', 'Am', 'Cb', 'Abm', 'C#', 'A#m', 'F', 'Dm', 'G', 'Em', 'F#', 'D#m', 
         'Db', 'Bbm', 'E', 'C#m', 'Ab', 'Fm', 'A', 'F#m', 'Eb', 'Cm', 'D', 'Bm', 'Bb', 'Gm')
 TEXT_METAS = ('text', 'copyright', 'track_name', 'instrument_name', 'lyrics', 'marker', 'cue_marker', 'device_name')
 UNKNOWN_TYPES = (0x08, 0x0A, 0x10, 0x22, 0x4B, 0x60, 0x7E)
+# characters the charset has no encoding for
+UNENCODABLE = {'latin1': ('\u20ac', '\u65e5', '\u0153'), 'cp1252': ('\u65e5', '\u0416', '\x81'),
+               'ascii': ('\xe9', '\u20ac', '\x80'), 'shift_jis': ('\u20ac', '\xe9', '\u0153')}
 
 
 def _edge(rng, lo, hi):
@@ -175,6 +180,14 @@ def unstorable_reason(mf):
     return None
 
 
+class _NullOut:
+    def write(self, s):
+        return len(s)
+
+    def flush(self):
+        pass
+
+
 class FileStore(BaseEngine):
     name = 'filestore'
 
@@ -215,6 +228,10 @@ class FileStore(BaseEngine):
                 'nested': pick(rng, (None, None, None, None, None, 'ok', 'fail')),
                 'prelude': [pick(rng, ('utf-8', 'utf-16', 'cp1252', 'latin1')) for _ in range(rng.randint(1, 2))]
                 if rng.random() < 0.2 else []}
+        if cfg == 'roundtrip':
+            plan['read_cap'] = pick(rng, (0, 0, 16, 50, 100, 4096))
+            plan['frozen'] = cfg == 'roundtrip' and rng.random() < 0.15
+            plan['debug'] = rng.random() < 0.04
         if cfg == 'alt_image':
             plan['tracks'] = []
             plan['alt'] = self._gen_alt(rng)
@@ -225,7 +242,8 @@ class FileStore(BaseEngine):
         if cfg != 'roundtrip' and plan['tpb'] > 32767:
             plan['tpb'] = 480
         if cfg == 'unstorable':
-            kind = weighted(rng, (('rt', 4), ('negative', 2), ('float', 2), ('type0', 2), ('storable_common', 3)))
+            kind = weighted(rng, (('rt', 4), ('negative', 2), ('float', 2), ('type0', 2), ('storable_common', 3),
+                                  ('unencodable', 2)))
             plan['bad'] = kind
             if not tracks:
                 tracks.append([])
@@ -242,6 +260,13 @@ class FileStore(BaseEngine):
                     tracks[tgt][j] = ['bad_on', tracks[tgt][j], val]
                 else:
                     tracks[tgt].insert(pos, ['badtime', val])
+            elif kind == 'unencodable':
+                cs = pick(rng, ('latin1', 'latin1', 'cp1252', 'ascii', 'shift_jis'))
+                plan['charset'] = cs
+                txt = pick(rng, ('a', '', 'xy')) + pick(rng, UNENCODABLE[cs]) + pick(rng, ('', 'b'))
+                t = pick(rng, TEXT_METAS)
+                tracks[tgt].insert(pos, ['meta', t, {'name' if t in ('track_name', 'instrument_name', 'device_name')
+                                                      else 'text': txt}, pick(rng, SMALL_DELTAS)])
             elif kind == 'type0':
                 plan['type'] = 0
                 if len(tracks) == 1:
@@ -352,6 +377,8 @@ class FileStore(BaseEngine):
     def _charset(self, plan):
         """The charset the judged file uses: the planned one if every text of the plan survives it, else latin1."""
         cs = plan.get('charset', 'latin1')
+        if plan.get('bad') == 'unencodable':
+            return cs
         if plan.get('cfg') != 'roundtrip' or cs == 'latin1':
             return 'latin1'
         for tr in plan['tracks']:
@@ -370,7 +397,10 @@ class FileStore(BaseEngine):
         mf = MidiFile(type=plan['type'] if plan['type'] in (0, 1, 2) else 1, ticks_per_beat=plan['tpb'],
                       charset=self._charset(plan))
         for tr in plan['tracks']:
-            mf.tracks.append(MidiTrack(build(e) for e in tr))
+            if plan.get('frozen'):
+                mf.tracks.append(MidiTrack(freeze_message(build(e)) for e in tr))
+            else:
+                mf.tracks.append(MidiTrack(build(e) for e in tr))
         return mf
 
     def _save(self, mf, via, disk, name='f.mid'):
@@ -385,15 +415,30 @@ class FileStore(BaseEngine):
             mf.save(file=h)
         return bytes(disk.files[name])
 
-    def _load(self, image, via, disk, name='g.mid', charset='latin1'):
+    def _load(self, image, via, disk, name='g.mid', charset='latin1', read_cap=0, debug=False, stats=None):
         disk.files[name] = bytearray(image)
-        if via == 'filename':
-            mfmod.__dict__['open'] = disk.open
-            try:
-                return MidiFile(filename=name, charset=charset)
-            finally:
-                mfmod.__dict__.pop('open', None)
-        return MidiFile(file=disk.handle(name, 'rb'), charset=charset)
+        fault = {'read_cap': read_cap} if read_cap else None
+        kw = {'debug': True} if debug else {}
+        old_out = sys.stdout
+        if debug:
+            sys.stdout = _NullOut()        # debug=True prints every byte read
+        try:
+            if via == 'filename':
+                mfmod.__dict__['open'] = disk.open
+                disk.next_fault = fault
+                try:
+                    return MidiFile(filename=name, charset=charset, **kw)
+                finally:
+                    mfmod.__dict__.pop('open', None)
+            return MidiFile(file=disk.handle(name, 'rb', fault), charset=charset, **kw)
+        finally:
+            sys.stdout = old_out
+            if stats is not None:
+                if read_cap:
+                    stats['fault:read_size_capped'] += 1
+                    stats['short_reads_taken'] += sum(h.short_reads for h in disk.handles if h.name == name)
+                if debug:
+                    stats['fault:load_with_debug_output'] += 1
 
     def _probe_image(self, image, stats):
         """Reach probes measured on the stored bytes with the independent walker."""
@@ -467,8 +512,10 @@ class FileStore(BaseEngine):
             except Exception:
                 pass
         mf = self._mk(plan)
-        model = [normalise([m.copy() for m in tr]) for tr in mf.tracks]
-        if plan.get('merge_edit'):
+        model = [normalise([thaw_message(m) for m in tr]) for tr in mf.tracks]
+        if plan.get('frozen'):
+            stats['fault:frozen_messages_in_tracks'] += 1
+        if plan.get('merge_edit') and not plan.get('frozen'):
             # the user took a merged copy of the tracks earlier and edited that copy in place
             try:
                 from mido import merge_tracks
@@ -528,7 +575,8 @@ class FileStore(BaseEngine):
                                                                f'expected {omodel!r}')
             stats['fault:other_file_in_between'] += 1
         try:
-            back = self._load(image, plan['via'], disk, charset=self._charset(plan))
+            back = self._load(image, plan['via'], disk, charset=self._charset(plan), read_cap=plan.get('read_cap', 0),
+                              debug=plan.get('debug', False), stats=stats)
         except Exception as e:
             raise Violation(f'roundtrip:load-raised:{type(e).__name__}',
                             f'loading the image just saved raised {type(e).__name__}: {e} '
@@ -569,6 +617,30 @@ class FileStore(BaseEngine):
         if plan.get('bad') == 'type0':
             mf.type = 0
         why = unstorable_reason(mf)
+        if plan.get('bad') == 'unencodable' and why is None:
+            # a text the file's charset cannot express: refusing it is fine, storing it faithfully would be fine,
+            # writing a file that loads with another text is not
+            model = [normalise([m.copy() for m in tr]) for tr in mf.tracks]
+            stats['fault:unstorable_unencodable'] += 1
+            stats['_nontrivial'] += 1
+            cov.add('unstorable|unencodable')
+            try:
+                image = self._save(mf, plan['via'], disk)
+            except Exception as e:
+                log.ev('unencodable', type(e).__name__)
+                stats['probe:unencodable_text_refused'] += 1
+                return
+            try:
+                back = self._load(image, plan['via'], disk, charset=self._charset(plan))
+            except Exception as e:
+                raise Violation('unstorable:saved-unloadable', f'save accepted a text that {self._charset(plan)} cannot '
+                                                               f'encode and the file does not load: {e!r}')
+            if len(back.tracks) != len(model) or not all(same_track(list(a), b) for a, b in zip(back.tracks, model)):
+                raise Violation('unstorable:saved-differently', f'save accepted a text that {self._charset(plan)} cannot '
+                                                                f'encode and wrote a file that loads differently: '
+                                                                f'{[list(t) for t in back.tracks]!r}, expected {model!r}')
+            log.ev('unencodable', 'stored')
+            return
         try:
             image = self._save(mf, plan['via'], disk)
             outcome = 'saved'
